@@ -33,7 +33,7 @@ let tei_outcome (script : string) : string =
 (* ---- the client side: coq/TeiClient.v against the engine answers of the session ----
      CASE K <hex of the items> <transcript> | <results> <hex lines the engine received, joined by ",">
    items (one per line): "E ..." engine rules (only "E real <depth>" matters here), "G <size>", "P <tps>",
-   "Q <player> <dl> <tc> <tps>", "M <player> <dl> <tps>"; dl = "-" or "=<ns left>"; tc = "-" or "w,b,wi,bi" (ns).
+   "Q <player> <dl> <tc> <tps>", "M <player> <dl> <tps>"; dl = "-" or "=<ns left>" (as measured / set by the harness); tc = "-" or "w,b,wi,bi" (ns).
    transcript = what the scripted engine process answered to the k-th line it received: "<hex or ->:<flags or ->" joined by ","
    (flags: c = stdout closed after the answer, x = stdin closed before it and exit after it).  The oracle [eng] of the model
    is: the k-th successful write gets the k-th answer; after an x every write fails.  For "E real <depth>" the oracle is the
@@ -77,7 +77,10 @@ let session_with (type es) (eng : es -> coq_N list -> es TeiClient.eresp option)
           | "M", pl :: dl :: t -> (pick pl, dl, "-", S.concat " " t)
           | _ -> failwith "C17: bad client item") in
         let pos = (match Inst.tps_parse (bytes_of_string tps) with Move.Ok p -> p | _ -> failwith "C17: bad tps in client item") in
-        let dl = if dl = "-" then None else Some (z_of_i64 (Int64.of_string (S.sub dl 1 (S.length dl - 1)))) in
+        let dl = if dl = "-" then None
+          else if S.length dl > 1 && S.sub dl 0 1 = "=" then Some (z_of_i64 (Int64.of_string (S.sub dl 1 (S.length dl - 1))))
+          else if S.length dl > 2 && S.sub dl 0 2 = "us" then Some (z_of_i64 (Int64.mul 1000L (Int64.of_string (S.sub dl 2 (S.length dl - 2)))))
+          else Some (z_of_i64 (Int64.mul 1000000L (Int64.of_string dl))) (* an item the harness did not reach *) in
         let tc = if tc = "-" then None else
           (match L.map (fun v -> z_of_i64 (Int64.of_string v)) (S.split_on_char ',' tc) with
            | [w; b; wi; bi] -> Some { TeiClient.tc_white = w; tc_black = b; tc_winc = wi; tc_binc = bi }
